@@ -6,6 +6,7 @@ import ast
 from .program import AnalysisError, ClassInfo, ExtClass, Inconclusive
 from .values import (Const, Sym, CRef, FRef, Bound, Obj, Tup, App, New,
                      Raise, BoundB)
+from .fields import subformula_field, bool_value_field, height_field
 from .interp import Interp, Hooks
 
 LANGS = {'PL': 'PL.language', 'CTLS': 'CTLS.language',
@@ -188,7 +189,7 @@ class FormulaHooks(Hooks):
         if isinstance(v, New) and isinstance(v.ci, ClassInfo) and \
                 v.ci.is_subclass_of(self.base):
             s = self.sig(v.ci)
-            if name == '_subformula' and s.kind == 'op':
+            if name == subformula_field(self.prog) and s.kind == 'op':
                 o = path.alloc('list')
                 from .values import Part
                 for a in v.args:
@@ -198,8 +199,9 @@ class FormulaHooks(Hooks):
                     else:
                         path.heap[o.oid].parts.append(Part('elem', a))
                 return o
-            if name in ('name', '_value') and s.kind == 'leaf' and v.args:
+            if name in ('name', bool_value_field(self.prog)) and \
+                    s.kind == 'leaf' and v.args:
                 return v.args[0]
-            if name == 'height':
+            if name == height_field(self.prog):
                 return App('height', v)
         return None
